@@ -652,7 +652,7 @@ fn single(ctx: &mut Ctx) {
                 run_built(ctx, &cfg, "single", true);
                 if vi == 1 && enc.label() == "be/64/v2/a2" {
                     let b = cfg.build();
-                    ctx.sample("single", || json!({"enc": enc.label(), "form": fname, "debug_info": hex(&b.debug_info), "debug_abbrev": hex(&b.debug_abbrev), "model": format!("{:?}", b.units[0].items[0].attrs.iter().map(|a| (a.offset, a.len, &a.expect)).collect::<Vec<_>>())}));
+                    ctx.sample("single", || json!({"enc": enc.label(), "form": fname, "debug_info": hex(&b.debug_info), "debug_types": hex(&b.debug_types), "debug_abbrev": hex(&b.debug_abbrev), "model": format!("{:?}", b.units[0].items[0].attrs.iter().map(|a| (a.offset, a.len, &a.expect)).collect::<Vec<_>>())}));
                 }
             }
         }
